@@ -145,12 +145,17 @@ structure RM (K : Nat) (st : St) : Prop where
   tr : bodiesTracked st.prog = true
   kle : K ≤ st.prog.length
   defs : ∀ i, i < K → ∃ d, st.prog[i]? = some d ∧ ∀ x, d ≠ .eff x
+  /-- every effect is a render effect: it ran when it was created -/
+  firstF : ∀ i, (st.rs.get i).kind = .eff → (st.rs.get i).first = false
+  /-- … and its body writes no signal -/
+  nwAll : ∀ (i : Nat) (x : Expr), st.prog[i]? = some (NodeDef.eff x) → x.noWrite = true
 
 theorem RM.len {K : Nat} {st : St} (h : RM K st) : st.rs.nodes.length = st.prog.length := h.top.quiet.inv.len
 
 theorem RM.of_rs_prog {K : Nat} {st st' : St} (h : RM K st) (hp : st'.prog = st.prog) (hr : st'.rs = st.rs) :
     RM K st' := by
-  refine ⟨by rw [hp, hr]; exact h.top, by rw [hp]; exact h.wf, by rw [hp]; exact h.tr, by rw [hp]; exact h.kle, ?_⟩
+  refine ⟨by rw [hp, hr]; exact h.top, by rw [hp]; exact h.wf, by rw [hp]; exact h.tr, by rw [hp]; exact h.kle, ?_,
+    by rw [hr]; exact h.firstF, by rw [hp]; exact h.nwAll⟩
   rw [hp]; exact h.defs
 
 theorem _root_.Leptos.Reactive.TopC.congrD {p : Prog} {s : State} {D D' : Nat → Prop} (h : TopC p s D) (hd : ∀ i, D i ↔ D' i) :
@@ -332,7 +337,27 @@ theorem newEffM_spec' {K : Nat} {st : St} (h : RM K st) {x : Expr} (hwf : WF (st
         simp only [DeadE, hst.1, hst.2.2.1]
       · have hk' : ((newEff st x).2.2.rs.get i).kind ≠ .eff := by rw [hkinds i hi]; exact hk
         exact ⟨fun hd => absurd hd.1 hk, fun hd => absurd hd.1 hk'⟩
-  refine ⟨rfl, rfl, ⟨htop.congrD hdead, hwf, htr, ?_, ?_⟩, ⟨⟨[.eff x], rfl⟩, fun _ hf => hf.elim, ?_, fun _ h => h⟩,
+  have hfirstF : ∀ i, ((newEff st x).2.2.rs.get i).kind = .eff → ((newEff st x).2.2.rs.get i).first = false := by
+    intro i hk
+    by_cases hi : i = st.prog.length
+    · subst hi; rw [hrs, hlifeE.2.2.1]
+    · have hk0 : (st.rs.get i).kind = .eff := by rw [← hkinds i hi]; exact hk
+      have hi' : i < st.prog.length := by
+        rw [← hlen]; exact st.rs.lt_of_kind_ne (by rw [hk0]; simp)
+      have hst := hold i hi' hk0
+      simp only [stab, Prod.mk.injEq] at hst
+      rw [hst.2.2.2.2.1]; exact h.firstF i hk0
+  have hnwAll : ∀ (i : Nat) (y : Expr), (st.prog ++ [NodeDef.eff x])[i]? = some (NodeDef.eff y) → y.noWrite = true := by
+    intro i y hy
+    rcases Nat.lt_or_ge i st.prog.length with hl | hl
+    · rw [List.getElem?_append_left hl] at hy; exact h.nwAll i y hy
+    · rcases Nat.lt_or_ge st.prog.length i with hl2 | hl2
+      · rw [List.getElem?_eq_none (by simp; omega)] at hy; cases hy
+      · have : i = st.prog.length := by omega
+        subst this
+        simp at hy
+        rw [← hy]; exact hnw
+  refine ⟨rfl, rfl, ⟨htop.congrD hdead, hwf, htr, ?_, ?_, hfirstF, hnwAll⟩, ⟨⟨[.eff x], rfl⟩, fun _ hf => hf.elim, ?_, fun _ h => h⟩,
     hkindE, ?_, ?_, ?_, rfl, rfl, rfl, rfl, rfl, rfl⟩
   · show K ≤ (st.prog ++ [NodeDef.eff x]).length
     have := h.kle; simp; omega
@@ -354,11 +379,11 @@ theorem newEffM_spec {K : Nat} {st : St} (h : RM K st) {x : Expr} (hs : sigOnly 
     NewEffM K st x (newEff st x).1 (newEff st x).2.1 (newEff st x).2.2 :=
   newEffM_spec' h (h.wf_eff hs).1 (h.wf_eff hs).2 (by simp only [sigOnly, Bool.and_eq_true] at hs; exact hs.1.2)
 
-theorem NewEffM.em {K : Nat} {st st1 st2 : St} {x : Expr} {e : Nat} {v : Int} {cur : Int → Prop}
+theorem NewEffM.em' {K : Nat} {A : Nat → Prop} {st st1 st2 : St} {x : Expr} {e : Nat} {v : Int} {cur : Int → Prop}
     (hn : NewEffM K st x e v st1) (hk : K ≤ st.prog.length) (hnw : x.noWrite = true)
-    (hx : ExtM K (fun _ => False) st1 st2) (ht : e ∈ st2.tasks) (hc : cur v) : EM K st2 e x cur := by
+    (hx : ExtM K A st1 st2) (ha : ¬ A e) (ht : e ∈ st2.tasks) (hc : cur v) : EM K st2 e x cur := by
   have hlt1 : e < st1.prog.length := by rw [hn.prog, hn.he]; simp
-  have hk1 := hx.keep e hlt1 hn.kind (fun hf => hf)
+  have hk1 := hx.keep e hlt1 hn.kind ha
   simp only [stab, Prod.mk.injEq] at hk1
   refine ⟨by rw [hn.he]; exact hk, by have := hx.len_le; omega, ?_, hnw, by rw [hk1.1]; exact hn.kind,
     by rw [hk1.2.2.1]; exact hn.alive, by rw [hk1.2.2.2.1]; exact hn.done, by rw [hk1.2.2.2.2.1]; exact hn.first,
@@ -371,7 +396,17 @@ theorem dropEffM {K : Nat} {st : St} (h : RM K st) (e : Nat) (held : Option RSta
     (hk : (st.rs.get e).kind = .eff) : RM K (dropEff st e held) := by
   have hd := h.top.dispose e hk
   obtain ⟨_, _, hget⟩ := dispose_get st.prog st.rs e
-  refine ⟨hd.congrD (fun i => ?_), h.wf, h.tr, h.kle, h.defs⟩
+  refine ⟨hd.congrD (fun i => ?_), h.wf, h.tr, h.kle, h.defs, ?_, h.nwAll⟩
+  rotate_left
+  · intro i hki
+    show ((Reactive.step st.prog st.rs (.dispose e)).1.get i).first = false
+    have hki' : ((Reactive.step st.prog st.rs (.dispose e)).1.get i).kind = .eff := hki
+    rw [hget i] at hki' ⊢
+    split at hki'
+    · split
+      · exact h.firstF i hki'
+      · exact h.firstF i hki'
+    · rw [if_neg (by assumption)]; exact h.firstF i hki'
   show (DeadE st.rs i ∨ i = e) ↔ DeadE (Reactive.step st.prog st.rs (.dispose e)).1 i
   rw [DeadE, DeadE, hget i]
   by_cases hie : i = e
@@ -438,7 +473,19 @@ theorem setSigM {K : Nat} {st : St} (h : RM K st) (id : Nat) (v : Int) :
           simp only [DeadE, this.1, this.2.2.1]
         · have hk' : ((setSignal (fuelFor st.prog) st.rs id v).get i).kind ≠ .eff := by rw [hsk.kind]; exact hk
           exact ⟨fun hd => absurd hd.1 hk, fun hd => absurd hd.1 hk'⟩
-      exact ⟨⟨(h.top.set hp v).congrD hdead, h.wf, h.tr, h.kle, h.defs⟩,
+      have hff : ∀ i, ((setSignal (fuelFor st.prog) st.rs id v).get i).kind = .eff →
+          ((setSignal (fuelFor st.prog) st.rs id v).get i).first = false := by
+        intro i hk
+        have hk0 : (st.rs.get i).kind = .eff := by rw [← hsk.kind]; exact hk
+        have := hsk.eff i hk0 (fun hf => hf)
+        simp only [stab, Prod.mk.injEq] at this
+        rw [this.2.2.2.2.1]; exact h.firstF i hk0
+      exact ⟨⟨(h.top.set hp v).congrD hdead, h.wf, h.tr, h.kle, h.defs, hff, h.nwAll⟩,
         ExtM.of_sk (fun _ hf => hf.elim) rfl hsk (fun _ he => he)⟩
+
+theorem NewEffM.em {K : Nat} {st st1 st2 : St} {x : Expr} {e : Nat} {v : Int} {cur : Int → Prop}
+    (hn : NewEffM K st x e v st1) (hk : K ≤ st.prog.length) (hnw : x.noWrite = true)
+    (hx : ExtM K (fun _ => False) st1 st2) (ht : e ∈ st2.tasks) (hc : cur v) : EM K st2 e x cur :=
+  hn.em' hk hnw hx (fun hf => hf) ht hc
 
 end Leptos.RView
